@@ -67,6 +67,23 @@ def gen_pair(ck: Check, diffuse: bool):
         r1, r2 = r2, r1
     p1 = np.array([rng.uniform(-100, 100) for _ in range(d)])
     p2 = np.array([rng.uniform(-100, 100) for _ in range(d)])
+    place = rng.random()
+    if place < 0.15:
+        # far from the origin relative to the separation (|p1 - p2| / |p| ~ 1e-6: 'close' for numpy's relative tolerance, yet distinct centres)
+        base = np.array([rng.choice([-1, 1]) * rng.uniform(1e6, 3e6) for _ in range(d)])
+        p1, p2 = base + p1 / 20, base + p2 / 20
+        r1, r2 = rng.uniform(0.5, 3), rng.uniform(0.5, 3)
+        ck.count("far_from_origin")
+    elif place < 0.3:
+        # a small unit of length (nanometres given in metres): every coordinate difference is below numpy's absolute tolerance 1e-8
+        unit = rng.choice([1e-9, 1e-10])
+        p1, p2, r1, r2 = p1 * unit, p2 * unit, rng.uniform(0.5, 30) * unit, rng.uniform(0.5, 30) * unit
+        ck.count("small_unit_of_length")
+    elif place < 0.4:
+        # one shared coordinate (droplets on a common axis), the others different
+        k = rng.randrange(d)
+        p2[k] = p1[k]
+        ck.count("shared_coordinate")
     if diffuse:
         # (a width of exactly 0 - a sharp interface - is valid and occurs in every run, also on one side only)
         w1, w2 = rng.choice([0.0, rng.uniform(0, 5), rng.uniform(0, 5)]), rng.choice([0.0, rng.uniform(0, 5), rng.uniform(0, 5), rng.uniform(0, 5)])
@@ -116,7 +133,7 @@ def one_case(ck: Check, reqs: list, expect: list, diffuse: bool):
     if not rel_close(c_copy.volume, V1 + V2, RTOL):
         ck.fail(f"volume not conserved: {V1}+{V2} -> {c_copy.volume}", {**sig, "check": "merge_volume"}, case)
     want = (V1 * a.position + V2 * b.position) / (V1 + V2)
-    if not np.allclose(c_copy.position, want, rtol=1e-11, atol=1e-11 * (abs(want).max() + 1)):
+    if not np.allclose(c_copy.position, want, rtol=1e-11, atol=1e-11 * max(abs(a.position).max(), abs(b.position).max())):
         ck.fail(f"centre is not the volume-weighted mean: {c_copy.position} vs {want}", {**sig, "check": "merge_centre"}, case)
     if diffuse and not rel_close(c_copy.interface_width, (a.interface_width + b.interface_width) / 2, 1e-15):
         ck.fail("width is not the mean of the widths", {**sig, "check": "merge_width"}, case)
@@ -125,13 +142,17 @@ def one_case(ck: Check, reqs: list, expect: list, diffuse: bool):
         ck.fail("merge is not commutative", {**sig, "check": "merge_comm"}, case)
     if type(c_copy) is not cls:
         ck.fail("class changed by merge", {**sig, "check": "class"}, case)
-    # --- model request (coordinate 0)
+    # --- model requests: the regenerated scalar merge applied to EVERY coordinate (merge_vector_conserves: one radius, one position vector)
     w1 = a.data["interface_width"] if diffuse else 0.0
     w2 = b.data["interface_width"] if diffuse else 0.0
+    a0p = np.array(a.position, dtype=float)
     for variant, got in (("copy", c_copy), ("inplace", a2)):
         v = ("diffuse_" if diffuse else "") + variant
-        reqs.append(f"c11 {v} {d} {fbits(a.position[0])} {fbits(a.radius)} {fbits(w1)} {fbits(b.position[0])} {fbits(b.radius)} {fbits(w2)} {fbits(0.0)} {fbits(0.0)} {fbits(0.0)}")
-        expect.append((case, v, float(got.position[0]), float(got.radius), float(got.data["interface_width"]) if diffuse else None))
+        for k in range(d):
+            reqs.append(f"c11 {v} {d} {fbits(a.position[k])} {fbits(a.radius)} {fbits(w1)} {fbits(b.position[k])} {fbits(b.radius)} {fbits(w2)} {fbits(0.0)} {fbits(0.0)} {fbits(0.0)}")
+            expect.append((case, f"{v}[coordinate {k}]", float(got.position[k]), float(got.radius), float(got.data["interface_width"]) if diffuse else None,
+                           max(abs(float(a0p[k])), abs(float(b.position[k])))))
+            ck.count("coordinates_compared")
     return case
 
 
@@ -147,13 +168,13 @@ def correspond(ck: Check, n: int):
     except RuntimeError as e:
         ck.mismatch("c11-merge", f"driver unavailable: {e}", {})
         return
-    for (case, v, p, r, w), out in zip(expect, outs):
+    for (case, v, p, r, w, pscale), out in zip(expect, outs):
         parts = out.split()
         if parts[0] != "ok":
             ck.mismatch("c11-merge", f"{v}: model says {out}, implementation returned a droplet", case)
             continue
         mp, mr, mw = (bits_to_float(x) for x in parts[1:4])
-        ok = rel_close(mp, p, 1e-12, 1e-12) and rel_close(mr, r, 1e-13)
+        ok = rel_close(mp, p, 1e-12, 1e-12 * pscale) and rel_close(mr, r, 1e-13)
         if w is not None:
             ok = ok and rel_close(mw, w, 1e-15)
         if not ok:
@@ -229,7 +250,7 @@ def run(ck: Check):
     ck.rule = ("random operand pairs (dims 1-3, radii over 20 orders of magnitude incl. zero, both classes) through 4 real code "
                "paths + merge trees with random grouping; non-trivial = distinct operand pairs / leaf sets")
     ck.extra_cov["gen_keys"] = GEN_KEYS
-    ck.assumptions = ["theorems are over the reals for one position coordinate (numpy treats coordinates uniformly); float agreement to 1e-12",
+    ck.assumptions = ["theorems are over the reals; the regenerated statement is scalar and is applied per coordinate (merge_vector_conserves), every coordinate is compared with the implementation; float agreement to 1e-12",
                       "the numba path is exercised through an njit wrapper around Class._merge_data"]
     ck.lean = lean_stage("C11", leanchecker=not ck.quick)
     correspond(ck, ck.budget(600, 20000))
